@@ -188,7 +188,7 @@ def collect(ctx, prop):
         nmc, nrand = 2500, 1500
     else:
         r, scripts = design_check_and_scripts(ctx, 4, "{1, 2, 3, 5, 253, 255}")
-        nmc, nrand = len(scripts), 30000
+        nmc, nrand = 100000, 15000        # of ~275 000 emitted scripts: all short ones + a seeded sample (a full replay takes 45 min per property)
     ctx.log("design check: %d states, %d distinct; %d scripts emitted" % (r["states"], r["distinct"], len(scripts)))
     total_scripts = len(scripts)
     if len(scripts) > nmc:
